@@ -600,6 +600,10 @@ def _search(ctx, deep=False):
     hv, hev, hsum = search_histories(ctx, rng, deep)
     viol += hv
     ev += hev
+    mev, mv = search_mesh_paths(ctx, np.random.RandomState(ctx.seed + 5511), ctx.scale(24, 200))
+    viol = mv[:2] + viol
+    ev += mev
+    hsum += f"; {mev} Krige.mesh calls (meshio point / cell data, any `direction` selection) against the direct call at the selected coordinates"
     return {"evaluations": ev, "violations": viol[:8], "distribution": {"compared": ctags, "not_compared": rejected},
             "summary": "real Krige variants (+ generic class; identity and 6 non-identity normalizers x constant/callable mean x trend: "
                        f"{len(tags)} combinations) vs an independent numpy solve of the kriging system on independently prepared data, raw and "
@@ -608,6 +612,65 @@ def _search(ctx, deep=False):
                        f"pseudo_inv: {sum(v for k, v in ctags.items() if not k.startswith('coin:distinct'))} of {sum(ctags.values())} compared "
                        f"systems in {len([k for k in ctags if not k.startswith('coin:distinct')])} classes (regular systems only; a singular-matrix "
                        "error on a regular system is a violation); " + hsum}
+
+
+def search_mesh_paths(ctx, rng, n):
+    """the kriging estimate and variance delivered through Krige.mesh (meshio point data / cell data, any `direction` selection: axis
+    letters in any order, index lists, 'all') are the estimate and variance of the plain unstructured call at the selected coordinates
+    of the mesh points / the cell centroids (helpers shared with C11's output-path search)"""
+    import gstools as gs
+    import importlib.util, os
+    spec = importlib.util.spec_from_file_location("gsv_props_C11_helpers", os.path.join(os.path.dirname(os.path.abspath(__file__)), "C11.py"))
+    c11 = importlib.util.module_from_spec(spec)
+    spec.loader.exec_module(c11)
+    viol, ev = [], 0
+    for t in range(n):
+        dim = int(rng.randint(1, 4))
+        mesh_dim = int(rng.randint(dim, 4))
+        select, direction = c11.random_select(rng, dim, mesh_dim)
+        kw = dict(dim=dim, var=1.4, len_scale=2.0)
+        if dim > 1:
+            kw.update(anis=[float(a) for a in rng.choice([0.5, 2.0, 1.0], size=dim - 1)],
+                      angles=[float(a) for a in rng.uniform(-1, 1, {2: 1, 3: 3}[dim])])
+        model = gs.Exponential(**kw)
+        n_c = int(rng.randint(3, 8))
+        cpos = rng.uniform(-5, 5, size=(dim, n_c))
+        cval = rng.randn(n_c)
+        variant = ["Simple", "Ordinary", "Universal"][t % 3]
+        try:
+            if variant == "Simple":
+                kr = gs.krige.Simple(model, cpos, cval, mean=0.3)
+            elif variant == "Ordinary":
+                kr = gs.krige.Ordinary(model, cpos, cval)
+            else:
+                kr = gs.krige.Universal(model, cpos, cval, "linear")
+            path = "points" if rng.rand() < 0.5 else "centroids"
+            P = int(rng.randint(2, 9))
+            if path == "points":
+                tp = rng.uniform(-5, 5, size=(dim, P))
+                mesh = c11.point_mesh(rng, tp, mesh_dim, select)
+                kr.mesh(mesh, points="points", direction=direction, name=["f", "v"])
+                gf, gv = np.asarray(mesh.point_data["f"], dtype=float), np.asarray(mesh.point_data["v"], dtype=float)
+            else:
+                mesh, cents = c11.centroid_mesh(rng, P, mesh_dim, rng.uniform(-4, 4, size=mesh_dim), 2.0)
+                tp = np.vstack(cents).T[select]
+                kr.mesh(mesh, points="centroids", direction=direction, name=["f", "v"])
+                gf = np.concatenate([np.asarray(a, dtype=float).reshape(-1) for a in mesh.cell_data["f"]])
+                gv = np.concatenate([np.asarray(a, dtype=float).reshape(-1) for a in mesh.cell_data["v"]])
+            rf, rv = kr(tp, store=False)
+            ev += 1
+            tol = 1e-9 * (1.0 + float(np.max(np.abs(rf))))
+            if not (gf.shape == rf.shape and np.allclose(gf, rf, rtol=0, atol=tol) and np.allclose(gv, rv, rtol=0, atol=1e-9)):
+                viol.append({"key": f"krige:mesh-path:{path}",
+                             "what": f"{variant}.mesh(points={path!r}, direction={direction!r}) does not deliver the estimate / variance of the direct call "
+                                     "at the selected coordinates",
+                             "case": dict(variant=variant, dim=dim, mesh_dim=mesh_dim, select=select, direction=direction, cond_pos=cpos.tolist(),
+                                          cond_val=cval.tolist(), targets=np.asarray(tp).tolist(), model=repr(model)),
+                             "got": [gf.tolist(), gv.tolist()], "want": [np.asarray(rf).tolist(), np.asarray(rv).tolist()]})
+        except Exception as ex:
+            viol.append({"key": "krige:mesh-path:exception", "what": f"{type(ex).__name__}: {ex}",
+                         "case": dict(variant=variant, dim=dim, mesh_dim=mesh_dim, direction=direction)})
+    return ev, viol
 
 
 def last_setup(log):
